@@ -44,6 +44,7 @@ def check(c: Check):
     clause_f(c)
     clause_g(c)
     clause_h(c)
+    clause_j(c)
     from .common import sweep_records
     sweep_records(c, 'C15-rec', ['exactly_lib.impls.file_properties', 'exactly_lib.impls.types.files_matcher', 'exactly_lib.impls.types.file_matcher', 'exactly_lib.impls.types.files_source'], floor=3)
     from .common import check_application_purity
@@ -581,3 +582,87 @@ def clause_h(c: Check):
     hs = [h for n in walk_own(nm.node) if isinstance(n, ast.Try) for h in n.handlers]
     ok = len(hs) == 1 and unparse(hs[0].type) == 'KeyError' and is_false_result(util.block_return(nm, hs[0].body))
     c.expect(ok, 'C15-h', 'matches-full/name-check', 'a file whose name is not listed is not a mismatch', nm.loc())
+
+
+# ---------------------------------------------------------------- j
+def clause_j(c: Check):
+    """dir-contents-of: a name that exists in the populated directory is a clash (HARD_ERROR) - found without
+    following symbolic links (a dangling link is a clash too; copying "into" it would create its target outside the
+    directory); -recursive: the model is built with exactly the given depth limits"""
+    ix, fo = c.ix, c.fo
+    CD = 'exactly_lib.impls.types.files_source.impl.copy_dir_contents'
+    cls = ix.cls(CD + ':_CopyDirContents')
+    f = ix.class_member(cls, '_copy_path')
+    clash = ix.class_member(cls, '_raise_file_name_clash')
+    copy = ix.class_member(cls, '_copy_file')
+    hooks = ForkHooks(ix, loop_bound=1)
+    hooks.fork_on(lambda d, n, cv: isinstance(n.func, ast.Attribute) and n.func.attr == 'lstat',
+                  [('exists', lambda: Sym('stat-result', nullness=False, truth=True)),
+                   ('missing', ('raise', External('builtins.FileNotFoundError')))])
+    seen = set()
+    n_paths = 0
+    for p in util.func_paths(ix, fo, f, hooks):
+        n_paths += 1
+        labs = labels_of(p)
+        clashes = [e for e in p.calls() if e.data.get('callee') == clash]
+        copies = [e for e in p.calls() if e.data.get('callee') == copy]
+        if not labs:
+            c.bad('C15-j', 'copy/clash-test-does-not-follow-links',
+                  'an entry is copied / refused on a path that never looks at the destination with lstat() (exists() / '
+                  'is_file() follow symbolic links: a dangling link is not seen and its target is created outside the '
+                  'populated directory)', f.loc())
+            continue
+        seen.add(labs[0])
+        if labs[0] == 'exists':
+            c.expect(len(clashes) == 1 and not copies, 'C15-j', 'copy/existing-name-is-a-clash',
+                     'a name that exists in the populated directory is %s' % ('copied over' if copies else 'not reported as a clash'),
+                     f.loc())
+        else:
+            c.expect(len(copies) == 1 and not clashes, 'C15-j', 'copy/new-name-is-copied',
+                     'a name that does not exist in the populated directory is not copied', f.loc())
+    c.expect(seen == {'exists', 'missing'}, 'C15-j', 'copy/cases', 'cases analysed: %s' % sorted(seen), f.loc())
+    r = [n for n in walk_own(clash.node) if isinstance(n, ast.Raise)]
+    c.expect(len(r) == 1 and isinstance(clash.node.body[-1], ast.Raise), 'C15-j', 'copy/clash-raises', 'a clash does not raise', clash.loc())
+    # -recursive
+    mc = ix.cls('exactly_lib.impls.types.file_matcher.impl.dir_contents:_RecursiveModelConstructor')
+    mm = ix.class_member(mc, 'make_model')
+    rec = ix.func(FM + ':recursive')
+    nonrec = ix.func(FM + ':non_recursive')
+    it = Interp(ix, fo, _NoInline())
+    st = State()
+    obj = it.new_obj(mc)
+    mn, mx = Sym('min-depth'), Sym('max-depth')
+    st.heap[(obj.oid, '_min_depth')] = mn
+    st.heap[(obj.oid, '_max_depth')] = mx
+    model = Sym('model')
+    n_ret = 0
+    for p in it.run_function(mm, {mm.positional_params()[1].arg: model}, st, recv=obj):
+        if p.kind != 'return':
+            continue
+        n_ret += 1
+        o = p.val.origin if isinstance(p.val, Sym) else None
+        key = o[1] if o and o[0] == 'call' else None
+        if key == rec.key:
+            names = [p_.arg for p_ in rec.positional_params()]
+            given = dict(zip(names, o[2]))
+            given.update(o[3])
+            ok = util.attr_chain(given.get(names[0]))[1] == ('path',) and util.attr_chain(given.get(names[0]))[0] is model \
+                 and util.root_sym(given.get('min_depth')) is mn and util.root_sym(given.get('max_depth')) is mx
+            c.expect(bool(ok), 'C15-j', 'recursive-model/limits-handed-on',
+                     'the recursive model is not built from (the path of the model, the given min depth, the given max depth)',
+                     mm.loc())
+        elif key == nonrec.key:
+            facts = {unparse(t): truth for t, truth in p.guards}
+            max_zero = any(truth and isinstance(t, ast.Compare) and '_max_depth' in unparse(t) and isinstance(t.ops[0], ast.Eq)
+                           and any(isinstance(x, ast.Constant) and x.value == 0 for x in [t.left] + t.comparators)
+                           for t, truth in p.guards)
+            min_none = any('_min_depth' in unparse(t) and (
+                (isinstance(t, ast.Compare) and isinstance(t.ops[0], (ast.Is, ast.Eq)) and truth
+                 and any(isinstance(x, ast.Constant) and x.value in (None, 0) for x in [t.left] + t.comparators))
+                or (isinstance(t, ast.Attribute) and not truth)) for t, truth in p.guards)
+            c.expect(max_zero and min_none, 'C15-j', 'recursive-model/non-recursive-shortcut',
+                     'the direct contents are used for a -recursive model although max depth 0 and no min depth are not '
+                     'both established (%s): with a min depth >= 1 the model must be empty' % facts, mm.loc())
+        else:
+            c.bad('C15-j', 'recursive-model/result', 'the model of -recursive is %s' % util.describe(p.val), mm.loc())
+    c.floor('C15-j', 'returning paths of make_model', n_ret, 1)
